@@ -375,7 +375,11 @@ func c10World(rc *kernel.RunCtx) {
 						}
 						saved[p] = b
 						lines := strings.Split(string(b), "\n")
-						keep := t.Choose(len(lines), "keep-lines")
+						if len(lines) < 2 {
+							continue
+						}
+						// at least one line stays (an empty file reads as one empty literal)
+						keep := 1 + t.Choose(len(lines)-1, "keep-lines")
 						os.WriteFile(p, []byte(strings.Join(lines[:keep], "\n")), 0o644)
 						mt := time.Date(2002, 1, 1, 0, 0, 0, 0, time.UTC) // newer than what is cached (2001), older than "a moment ago"
 						os.Chtimes(p, mt, mt)
